@@ -23,8 +23,8 @@ fn build_m(pat: usize, m: usize, n: usize, dev: Option<(usize, usize)>) -> Vec<V
     }
     a
 }
-const COORDS: [f64; 5] = [-4.0, -1.5, 0.0, 0.25, 3.0];
-/// largest n whose point lattice {-4,-1.5,0,0.25,3}^n is enumerated completely (3 quick, 5 thorough)
+const COORDS: [f64; 5] = [-4.0, -1.0, 0.0, 0.25, 3.0];
+/// largest n whose point lattice {-4,-1,0,0.25,3}^n is enumerated completely (3 quick, 5 thorough)
 static FULL_POINTS_UPTO: std::sync::atomic::AtomicUsize = std::sync::atomic::AtomicUsize::new(3);
 fn points(n: usize) -> Vec<Vec<f64>> {
     let mut pts = vec![];
@@ -266,10 +266,77 @@ fn smooth_case(m: usize, n: usize, acc: &mut Acc) -> Result<(), String> {
     Ok(())
 }
 
+/// square maps x -> M x + c whose matrix is symmetric EXCEPT for 2^-30 (or 2^-20, -2^-28) in one off-diagonal entry - every
+/// position in turn -, and exactly symmetric ones: the slopes are exact for dyadic steps, so J = M bit for bit (a "Hessian"
+/// clean-up that averages nearly equal off-diagonal pairs is off by 2^-31)
+fn nearly_symmetric_case(n: usize) -> Result<(), String> {
+    let sym = |i: usize, j: usize| ((i + j) % 5) as f64 - 2.0 + if i == j { 3.0 } else { 0.0 };
+    let mut variants: Vec<Option<(usize, usize, f64)>> = vec![None];
+    for i in 0..n {
+        for j in 0..n {
+            if i != j {
+                variants.push(Some((i, j, [2f64.powi(-30), 2f64.powi(-20), -2f64.powi(-28)][(i + 2 * j) % 3])));
+            }
+        }
+    }
+    for var in variants {
+        let mm = |i: usize, j: usize| sym(i, j) + match var { Some((a, b, e)) if a == i && b == j => e, _ => 0.0 };
+        for p in [vec![0.0; n], (0..n).map(|k| COORDS[k % 5]).collect::<Vec<f64>>()] {
+            // (steps down to 2^-14: the products 2^-30 * 2^-14 and the sums of at most six terms below 128 are still exact)
+            for k in [4, 10, 14] {
+                let delta = 2f64.powi(-k);
+                let f = |x: Vec64| -> Vec64 { Vector::create((0..n).map(|i| (0..n).fold(i as f64 - 1.0, |s, j| s + mm(i, j) * x[j])).collect()) };
+                let jac = Mat64::jacobian(Vector::create(p.clone()), &f, delta);
+                ensure!(jac.rows() == n && jac.cols() == n, "nearly symmetric: shape");
+                for i in 0..n {
+                    for j in 0..n {
+                        ensure!(jac[(i, j)] == mm(i, j), "nearly symmetric n={} variant {:?} delta=2^-{}: J[{},{}] = {:?} expected exactly {:?} (J[{},{}] = {:?})", n, var, k, i, j, jac[(i, j)], mm(i, j), j, i, jac[(j, i)]);
+                    }
+                }
+            }
+        }
+    }
+    Ok(())
+}
+
+/// a REAL point at which the map takes REAL values although its slopes are complex: F(z) = r + M (z - p) with real r, real p and
+/// complex M (every term dyadic, so F(p) = r exactly), and F(z) = i (z^2 - 1) at z = 1 (slope 2i). The Jacobian is M (resp. 2i to
+/// within the step): nothing about the point or the value there says that the problem is real
+fn real_point_complex_slope_case(m: usize, n: usize, pat: usize) -> Result<(), String> {
+    let a = build_m(pat, m, n, None);
+    let ci = |i: usize, j: usize| Cmplx::new(a[i][j], m_entry(1 - pat, i, j));
+    for (pi, p) in points(n).into_iter().take(5).enumerate() {
+        // imaginary parts +0.0 / -0.0 alternate
+        let pz: Vec<Cmplx> = p.iter().enumerate().map(|(k, x)| Cmplx::new(*x, if (k + pi) % 2 == 0 { 0.0 } else { -0.0 })).collect();
+        for k in [4, 13, 26] {
+            let delta = 2f64.powi(-k);
+            let pzc = pz.clone();
+            let f = |x: Vector<Cmplx>| -> Vector<Cmplx> {
+                Vector::create((0..m).map(|i| (0..n).fold(Cmplx::new(i as f64 - 2.0, 0.0), |s, j| s + ci(i, j) * (x[j] - pzc[j]))).collect())
+            };
+            let at = f(Vector::create(pz.clone()));
+            ensure!(at.vec.iter().all(|v| v.imag == 0.0), "MACHINERY: the map is not real at the point");
+            let jac = Matrix::<Cmplx>::jacobian_cmplx(Vector::create(pz.clone()), &f, delta);
+            for i in 0..m {
+                for j in 0..n {
+                    ensure!(jac[(i, j)] == ci(i, j), "real point, real value, complex slope (m={} n={} delta=2^-{}): J[{},{}] = {:?} expected exactly {:?}", m, n, k, i, j, jac[(i, j)], ci(i, j));
+                }
+            }
+        }
+    }
+    if m == 1 && n == 1 {
+        let f = |x: Vector<Cmplx>| -> Vector<Cmplx> { Vector::create(vec![Cmplx::new(0.0, 1.0) * (x[0] * x[0] - Cmplx::new(1.0, 0.0))]) };
+        let delta = 2f64.powi(-20);
+        let jac = Matrix::<Cmplx>::jacobian_cmplx(Vector::create(vec![Cmplx::new(1.0, 0.0)]), &f, delta);
+        ensure!((jac[(0, 0)].imag - 2.0).abs() <= 2.0 * delta && jac[(0, 0)].real.abs() <= 2.0 * delta, "d/dz i (z^2 - 1) at z = 1 is {:?}, expected 2i", jac[(0, 0)]);
+    }
+    Ok(())
+}
+
 fn main() {
     let ctx = Ctx::from_args("C18");
     ctx.level("exploration");
-    ctx.rule("E1: every shape (m,n) in 1..6 x 1..6 (m<n, m=n, m>n), affine maps x -> Mx + c with two dyadic matrices, every single-entry deviation of M and every zero column of M (a variable the map ignores; real and complex), M and c multiplied by 2^1000 and 2^-1000, every point of {-4,-1.5,0,0.25,3}^n for n<=3 (thorough n<=5) and 5 corner/centre points above, every step 2^-4..2^-26 and 1e-8, through Mat64::jacobian and Matrix::<Cmplx>::jacobian_cmplx (plus twelve larger shapes up to 64 x 2 / 5 x 33): shape exactly m x n, entries exactly M for dyadic steps (all arithmetic exact) and within rounding for 1e-8; the closure logs its arguments: call 0 is the point, call j+1 is the point with coordinate j increased by exactly delta and all others restored - bit for bit, also for coordinates that x + delta - delta does not give back (2^-60, 4 - 2^-51, an imaginary part -0.0), and the perturbed coordinate keeps its imaginary part bit for bit; smooth maps within 10*delta*max|F''|. Non-trivial: m < n, m > n, n >= 2.");
+    ctx.rule("E1: every shape (m,n) in 1..6 x 1..6 (m<n, m=n, m>n), affine maps x -> Mx + c with two dyadic matrices, every single-entry deviation of M and every zero column of M (a variable the map ignores; real and complex), M and c multiplied by 2^1000 and 2^-1000, every point of {-4,-1,0,0.25,3}^n for n<=3 (thorough n<=5) and 5 corner/centre points above, every step 2^-4..2^-26 and 1e-8, through Mat64::jacobian and Matrix::<Cmplx>::jacobian_cmplx (plus twelve larger shapes up to 64 x 2 / 5 x 33): shape exactly m x n, entries exactly M for dyadic steps (all arithmetic exact) and within rounding for 1e-8; the closure logs its arguments: call 0 is the point, call j+1 is the point with coordinate j increased by exactly delta and all others restored - bit for bit, also for coordinates that x + delta - delta does not give back (2^-60, 4 - 2^-51, an imaginary part -0.0), and the perturbed coordinate keeps its imaginary part bit for bit; square maps symmetric except for 2^-30 / 2^-20 / -2^-28 in one off-diagonal entry (every position) exactly; complex maps that are REAL at a REAL point but have complex slopes exactly (and d/dz i(z^2-1) at 1); smooth maps within 10*delta*max|F''|. Non-trivial: m < n, m > n, n >= 2.");
     ctx.assume("exactness for dyadic data relies on every product and sum fitting in 53 bits, which holds for the chosen alphabets");
     ctx.threshold("smooth_jacobian_error_over_tolerance", 1.0);
     ctx.require(&["wide (m < n)", "tall (m > n)", "jacobian calls", "shape with m or n above 6"]);
@@ -310,6 +377,10 @@ fn main() {
                             affine_case(m, n, pat, Some((di, dj)), &mut local)?;
                         }
                     }
+                }
+                real_point_complex_slope_case(m, n, pat)?;
+                if m == n && n >= 2 && pat == 0 {
+                    nearly_symmetric_case(n)?;
                 }
                 affine_case_cmplx(m, n, pat)
             });
